@@ -190,6 +190,9 @@ def gen_case(rng, full=False):
         tag += '+if_none'
     # perdictable(f, on=keys) as the statement spells it, without `defaults=`: the python defaults of f are the defaults
     fdef = not (renames or if_none) and rng.random() < 0.3
+    if has_table and not fdef and not (renames or if_none) and rng.random() < 0.03:
+        params = params + ['z']                 # a parameter of f without an input: TypeError as soon as f is called
+        tag += '+param-without-input'
     if fdef:
         tag += '+function-defaults'
     if has_table and rng.random() < 0.03:
@@ -397,6 +400,8 @@ def laws(rng, tier, ctx):
     count += 28
     for _ in range(n):
         tag, line = gen_case(rng, full=True)
+        if 'param-without-input' in tag:
+            continue                                # the call raises TypeError by design of the case (correspondence only)
         case = dict(tag='law-' + tag.split('+')[0], lines=[line])
         sx = proto.parse(line)
         count += 1
